@@ -63,13 +63,18 @@ def build_rust():
         put(os.path.join(hdir, "src", "main.rs"), open(os.path.join(VERIF, "harness", "src", "main.rs")).read())
         put(os.path.join(hdir, ".cargo", "config.toml"), "[net]\noffline = true\n")
         shutil.copyfile(os.path.join(REPO, "Cargo.lock"), os.path.join(hdir, "Cargo.lock"))
-        r = sh(["cargo", "build", "--offline", "--quiet", "--manifest-path",
-                os.path.join(hdir, "Cargo.toml"), "--target-dir", TARGET],
+        # VERIF_COVERAGE=1 (tools/coverage.sh): an instrumented build with the nightly toolchain, whose llvm-tools read the
+        # profiles; used to measure which parts of /repo the correspondence runs execute, never by a registered check
+        cov = os.environ.get("VERIF_COVERAGE") == "1"
+        cargo = ["cargo", "+nightly"] if cov else ["cargo"]
+        cenv = {"RUSTFLAGS": "-C instrument-coverage", "LLVM_PROFILE_FILE": "/dev/null"} if cov else {}
+        r = sh(cargo + ["build", "--offline", "--quiet", "--manifest-path",
+                os.path.join(hdir, "Cargo.toml"), "--target-dir", TARGET], env=cenv,
                stdout=subprocess.PIPE, stderr=subprocess.STDOUT, text=True)
         if r.returncode != 0:
             return False, "harness build failed:\n" + r.stdout[-4000:]
-        r = sh(["cargo", "build", "--offline", "--quiet", "--manifest-path", os.path.join(REPO, "Cargo.toml"),
-                "--features", "verif", "--target-dir", TARGET],
+        r = sh(cargo + ["build", "--offline", "--quiet", "--manifest-path", os.path.join(REPO, "Cargo.toml"),
+                "--features", "verif", "--target-dir", TARGET], env=cenv,
                stdout=subprocess.PIPE, stderr=subprocess.STDOUT, text=True)
         if r.returncode != 0:
             return False, "redo build failed:\n" + r.stdout[-4000:]
